@@ -2,7 +2,7 @@
 only as the two partners of an accepted MGM2 offer."""
 from ..algocheck import run_algo_check, replay  # noqa: F401
 
-SMALL = ["pair", "pair3", "parallel", "unarypair", "isolated", "isounary", "path3", "path3d3", "fork3", "triangle", "tern", "ternpair"]
+SMALL = ["pair", "pair3", "parallel", "unarypair", "upath", "uall", "isolated", "isounary", "path3", "path3d3", "fork3", "triangle", "tern", "ternpair"]
 LARGE = ["twocomp", "path4", "star4", "cycle4", "tritail", "path5", "tree5", "tern5"]
 CLAUSES = {"C03_cost_got_worse", "C03_neighbours_moved_together"}
 
